@@ -247,6 +247,11 @@ func (g *ScenarioGun) prepareRequest(reqParts RequestParts) (*http.Request, erro
 		return nil, fmt.Errorf("%s http.NewRequest %w", op, err)
 	}
 	for k, v := range reqParts.Headers {
+		if strings.EqualFold(k, "Host") {
+			// net/http sends req.Host and ignores a Host entry of req.Header
+			req.Host = v
+			continue
+		}
 		req.Header.Set(k, v)
 	}
 
